@@ -739,6 +739,10 @@ func oneHistory(c *vh.Ctx, i int) {
 			_ = sp
 		}
 		prevFresh = fresh
+		if checkpoints > 0 {
+			// the unit of evaluation (and of non-triviality) of this monitor is the checkpoint; the Case counted the first one
+			c.AddEvaluations(1)
+		}
 		checkpoints++
 		hitsTotal += cpHits
 		if cpHits > 0 && cpChanged {
